@@ -256,13 +256,21 @@ def _canon_result(res):
 
 class Ref:
     """The layered mapping of the property text: one layer of writes/deletions per view; a view
-    shows the overlay of the layers of its chain from the most basic class down to itself."""
+    shows the overlay of the layers of its chain from the most basic class down to itself.
 
-    def __init__(self, case):
-        self.classes = [{"mro": [0], "fresh": True, "layer": dict(_pairs(case["init"]))}]
+    `defects` (empty for the oracle proper) switches on the recorded open findings, giving the
+    "reference corrected for the known defect" that failures are classified against:
+      "a"  instance clear() forgets the instance's own layer before tombstoning what the class shows
+      "b"  using(properties=P) with a Properties object shares P's layer instead of copying it
+      "c"  a class whose MRO mixes Properties objects skips the layers held under another object"""
+
+    def __init__(self, case, defects=()):
+        self.defects = frozenset(defects)
+        self.classes = [{"mro": [0], "fresh": True, "layer": dict(_pairs(case["init"])), "desc": 0}]
         self.insts = []
+        self.ndesc = 1
 
-    def chain(self, c):
+    def cut(self, c):
         out = []
         for x in self.classes[c]["mro"]:
             out.append(x)
@@ -270,16 +278,27 @@ class Ref:
                 break
         return out
 
+    def resolve(self, c):
+        """the Properties object `cls.properties` resolves to: that of the nearest fresh class"""
+        return self.classes[self.cut(c)[-1]]["desc"]
+
+    def chain(self, c):
+        out = self.cut(c)
+        if "c" in self.defects:
+            d = self.resolve(c)
+            out = [x for x in out if self.resolve(x) == d]
+        return out
+
     def inherits(self, w, v):
-        """does view w see the layer of view v?"""
+        """does view w see the layer of view v?  (always by the property text: defects ignored)"""
         if w == v:
             return True
         if v[0] == "i":
             return False
         if w[0] == "i":
             inst = self.insts[w[1]]
-            return "detached" not in inst and v[1] in self.chain(inst["cls"])
-        return v[1] in self.chain(w[1])
+            return "detached" not in inst and v[1] in self.cut(inst["cls"])
+        return v[1] in self.cut(w[1])
 
     def class_visible(self, c):
         out = {}
@@ -301,12 +320,16 @@ class Ref:
     def views(self):
         return [["c", i] for i in range(len(self.classes))] + [["i", i] for i in range(len(self.insts))]
 
-    def add_class(self, mro_tail, fresh, layer):
-        self.classes.append({"mro": [len(self.classes)] + list(mro_tail), "fresh": fresh, "layer": layer})
+    def add_class(self, mro_tail, fresh, layer, desc=None):
+        if fresh and desc is None:
+            desc = self.ndesc
+            self.ndesc += 1
+        self.classes.append({"mro": [len(self.classes)] + list(mro_tail), "fresh": fresh, "layer": layer,
+                             "desc": desc})
 
     def do(self, cmd):
-        """expected result: ("err", name) | ("any",) | ("v", value) | ("b", bool) | ("dict", {...}) |
-        ("keys", set) | ("vals", sorted list) | None"""
+        """expected result: ("err", name) | ("v", value) | ("b", bool) | ("dict", {...}) |
+        ("keys", sorted list) | ("vals", sorted list) | None"""
         t = cmd["t"]
         if t == "op":
             kind, n = cmd["view"]
@@ -314,6 +337,12 @@ class Ref:
                 return _dict_op(self.insts[n]["detached"], None, cmd, plain=True)
             vis = self.visible(cmd["view"])
             layer = self.classes[n]["layer"] if kind == "c" else self.insts[n]["layer"]
+            if kind == "i" and cmd["op"] == "clear" and "a" in self.defects:
+                shown = self.class_visible(self.insts[n]["cls"])
+                layer.clear()
+                for key in shown:
+                    layer[key] = TOMB
+                return None
             return _dict_op(vis, layer, cmd, plain=False)
         if t == "subclass":
             self.add_class(self.classes[cmd["p"]]["mro"], False, {})
@@ -322,7 +351,11 @@ class Ref:
         elif t == "using_props":
             self.add_class(self.classes[cmd["p"]]["mro"], True, dict(_pairs(cmd["init"])))
         elif t == "using_shared":
-            self.add_class(self.classes[cmd["p"]]["mro"], True, dict(self.classes[cmd["owner"]]["layer"]))
+            owner = self.classes[cmd["owner"]]
+            if "b" in self.defects:
+                self.add_class(self.classes[cmd["p"]]["mro"], True, owner["layer"], desc=owner["desc"])
+            else:
+                self.add_class(self.classes[cmd["p"]]["mro"], True, dict(owner["layer"]))
         elif t == "with_props":
             self.add_class(self.classes[cmd["p"]]["mro"], False, dict(_pairs(cmd["pairs"])))
         elif t == "new":
@@ -335,6 +368,13 @@ class Ref:
         elif t == "assign":
             self.insts[cmd["i"]] = {"cls": self.insts[cmd["i"]]["cls"], "detached": dict(_pairs(cmd["m"]))}
         return None
+
+
+KNOWN_DEFECTS = ("a", "b", "c")
+
+
+def _same_mapping(exp, got):
+    return set(exp) == set(got) and all(exp[k] == got[k] and type(exp[k]) is type(got[k]) for k in exp)
 
 
 def _overlay(out, layer):
@@ -444,40 +484,17 @@ def _result_matches(exp, got):
     return False
 
 
-def _bad_clear_keys(ref, cmd):
-    """KF-C17-a class: keys held in an instance's own layer that its class does not show at the
-    moment the instance's properties are clear()ed."""
-    if cmd["t"] != "op" or cmd["op"] != "clear" or cmd["view"][0] != "i":
-        return set()
-    inst = ref.insts[cmd["view"][1]]
-    if "detached" in inst:
-        return set()
-    cv = ref.class_visible(inst["cls"])
-    return {k for k in inst["layer"] if k not in cv}
-
-
-def _shared_groups(case):
-    """KF-C17-b class: classes (ids) that hold the same Properties object in their __dict__."""
-    owner_of = {}
-    groups = {}
-    n = 1
-    for cmd in case["cmds"]:
-        if cmd["t"] in ("subclass", "mi", "using_props", "with_props", "new_with_compound"):
-            n += 1
-        elif cmd["t"] == "using_shared":
-            root = owner_of.get(cmd["owner"], cmd["owner"])
-            owner_of[n] = root
-            groups.setdefault(root, {root}).add(n)
-            n += 1
-    return groups
-
-
-def check_case(case, stop_at_first=True):
-    """The oracle: run the real code next to the reference overlay.  Returns failure dicts."""
+def check_case(case, max_unknown=1):
+    """The oracle: run the real code next to the reference overlay of the property text.  Every
+    deviation from it is a failure.  Next to it runs the reference corrected for the recorded open
+    findings; where the real code follows that one, checking goes on against it (so the rest of the
+    history is still checked), and the failure records carry what `classify` needs."""
     real = Real(case)
     ref = Ref(case)
+    corr = Ref(case, KNOWN_DEFECTS)
     fails = []
-    forgotten = {}  # inst id -> keys forgotten by a clear() of class KF-C17-a
+    reported = set()      # (clause, view) already reported as following the corrected reference
+    unknown = [0]
 
     def read_all(step, op_view):
         for v in ref.views():
@@ -485,55 +502,113 @@ def check_case(case, stop_at_first=True):
             view = real.view(v)
             items = list(view.items())
             got = dict(items)
-            probe = set(exp) | set(got) | {"<absent>"}
-            bad = sorted(k for k in probe if (k in exp) != (k in got) or (k in exp and exp[k] != got[k]
-                                                                            or (k in exp and type(exp[k]) is not type(got[k]))))
-            if bad:
+            base = exp
+            if not _same_mapping(exp, got) or len(items) != len(got):
+                alt = corr.visible(v)
+                known = _same_mapping(alt, got) and len(items) == len(got)
                 leak = op_view is not None and not ref.inherits(v, op_view)
-                fails.append({"clause": "no-upward-leak" if leak else "read-is-overlay", "step": step, "view": v,
-                              "keys": bad, "expected": _canon_items(sorted(exp.items(), key=repr)),
-                              "observed": _canon_items(items)})
-                continue
+                clause = "no-upward-leak" if leak else "read-is-overlay"
+                probe = set(exp) | set(got)
+                bad = sorted((k for k in probe if (k in exp) != (k in got) or (k in exp and (
+                    exp[k] != got[k] or type(exp[k]) is not type(got[k])))), key=repr)
+                if not (known and (clause, tuple(v)) in reported):
+                    fails.append({"clause": clause, "step": step, "view": v, "keys": bad,
+                                  "expected": _canon_items(sorted(exp.items(), key=repr)),
+                                  "observed": _canon_items(items)})
+                if known:
+                    reported.add((clause, tuple(v)))
+                    base = alt           # go on checking this view against the corrected reference
+                else:
+                    unknown[0] += 1
+                    continue
             # the other read methods must tell the same story as items()
+            probe = set(base) | {"<absent>"}
             incoherent = []
-            if len(items) != len(got):
-                incoherent.append("items() repeats a key")
             if [k for k, _ in items] != list(view.keys()) or [x for _, x in items] != list(view.values()):
                 incoherent.append("keys()/values() differ from items()")
             for k in probe:
-                if (k in view) != (k in exp):
+                if (k in view) != (k in base):
                     incoherent.append("%r in view" % (k,))
-                if view.get(k, TOMB) != exp.get(k, TOMB):
+                if view.get(k, TOMB) != base.get(k, TOMB):
                     incoherent.append("get(%r)" % (k,))
                 try:
                     x = view[k]
-                    if k not in exp or x != exp[k]:
+                    if k not in base or x != base[k]:
                         incoherent.append("[%r]" % (k,))
                 except KeyError:
-                    if k in exp:
+                    if k in base:
                         incoherent.append("[%r] raised" % (k,))
-            if not (view == exp) or (view != exp) or bool(view) != bool(exp) or view.copy() != exp:
+            if not (view == base) or (view != base) or bool(view) != bool(base) or view.copy() != base:
                 incoherent.append("==/!=/bool/copy")
             if incoherent:
+                unknown[0] += 1
                 fails.append({"clause": "dict-semantics-read", "step": step, "view": v, "keys": [],
-                              "expected": _canon_items(sorted(exp.items(), key=repr)), "observed": incoherent[:6]})
+                              "expected": _canon_items(sorted(base.items(), key=repr)), "observed": incoherent[:6]})
 
     read_all(-1, None)
     for step, cmd in enumerate(case["cmds"]):
-        if fails and stop_at_first:
+        if unknown[0] >= max_unknown:
             break
-        bad = _bad_clear_keys(ref, cmd)
-        if bad:
-            forgotten.setdefault(cmd["view"][1], set()).update(bad)
         exp = ref.do(cmd)
+        alt = corr.do(cmd)
         got = real.do(cmd)
         if not _result_matches(exp, got):
-            fails.append({"clause": "dict-semantics-result", "step": step, "view": cmd.get("view"), "keys": [cmd.get("k")],
-                          "expected": repr(exp), "observed": repr(got)})
+            known = _result_matches(alt, got)
+            if not known:
+                unknown[0] += 1
+            fails.append({"clause": "dict-semantics-result", "step": step, "view": cmd.get("view"),
+                          "keys": [cmd.get("k")], "expected": repr(exp), "observed": repr(got)})
         read_all(step, cmd["view"] if cmd["t"] == "op" else None)
-    for f in fails:
-        f["_forgotten"] = {str(i): sorted(ks) for i, ks in forgotten.items()}
     return fails
+
+
+def classify_failure(case, failure):
+    """The class predicate of the open findings: the failure is exactly what the recorded defect
+    predicts — the reference with that one defect switched on shows, for the disputed view at the
+    failing step, the mapping that was observed (or returns the result that was observed).  Tried for
+    each defect alone, then for all of them together (histories in which two of them interact)."""
+    clause = failure.get("clause")
+    step = failure.get("step")
+    view = failure.get("view")
+    if clause not in ("read-is-overlay", "no-upward-leak", "dict-semantics-result") or step is None or not view:
+        return None
+    if not (-1 <= step < len(case["cmds"])):
+        return None
+    if clause == "dict-semantics-result":
+        real = Real(case)
+        got = None
+        for c in case["cmds"][:step + 1]:
+            got = real.do(c)
+    else:
+        try:
+            observed = {k: v for k, v in failure.get("observed")}
+            if len(observed) != len(failure.get("observed")):
+                return None
+        except (TypeError, ValueError):
+            return None
+
+    def predicts(defects):
+        r = Ref(case, defects)
+        out = None
+        for c in case["cmds"][:step + 1]:
+            out = r.do(c)
+        if clause == "dict-semantics-result":
+            return _result_matches(out, got)
+        if view not in r.views():
+            return False
+        return _same_mapping(r.visible(view), observed)
+
+    if predicts(()):
+        return None                      # not a deviation from the property text at all
+    for d in KNOWN_DEFECTS:
+        if predicts((d,)):
+            return "KF-C17-" + d
+    if predicts(KNOWN_DEFECTS):
+        # an interaction: file it under the first defect that matters for this view
+        for d in KNOWN_DEFECTS:
+            if not predicts(tuple(x for x in KNOWN_DEFECTS if x != d)):
+                return "KF-C17-" + d
+    return None
 
 
 # ---------------------------------------------------------------- generator
@@ -697,17 +772,24 @@ class C17(Property):
         "no_upward_leak", "step_untouched", "no_upward_leak_history",
         "read_is_overlay_class", "read_is_overlay_inst",
         "overlay_applyOp", "dict_semantics_class", "dict_semantics_inst",
-        "dict_result_class", "iter_result_class",
+        "dict_result_class", "iter_result_class", "dict_result_inst", "iter_result_inst", "itemsOf_iItems",
+        "iWrite_nodup",
         "sees_ancestor", "write_visible_below", "write_visible_below_inst",
         "detached", "detached_history",
         "WF_step", "NoShared_step", "inv_run",
         "C17_full_fails", "C17_full_fails_shared", "C17_full_fails_mi", "read_is_overlay_fails_mi",
     )]
-    level_text = "proof"
-    level_note = ("non-interference, read=overlay, dict semantics (state change and results), downward visibility and "
-                  "detachment are proved for every store/history of the model; the history-level identification with the "
-                  "layered store of the property text (C17_Full) is false of the code as it is (three negation witnesses = "
-                  "KF-C17-a/b/c) and is checked on every generated history by the runner (spec_agrees) outside those classes")
+    level_text = "proof (partial: sentence 1 over histories is refuted in full and not proved in guarded form)"
+    level_note = ("PROVED for every store/history of the model: non-interference (no_upward_leak, step_untouched, "
+                  "no_upward_leak_history), reading = overlay of the frames of the chain (read_is_overlay_*, a statement about a "
+                  "state: the layers are the model's own frames), dict semantics of every method through class AND instance "
+                  "views — state change (dict_semantics_*), order-free results (dict_result_*), iterating reads "
+                  "(iter_result_*, instance views under the local-storage Nodup invariant iWrite_nodup) —, downward "
+                  "visibility, detachment.  REFUTED: C17_Full (every history reads as the layered store of the property text) "
+                  "— three negation witnesses = KF-C17-a/b/c.  NOT PROVED: the guarded form of C17_Full (histories without "
+                  "the three finding classes): the one-step refinement abs(step σ c) = Spec.step (abs σ) c is evaluated at run "
+                  "time only (Run/C17.lean stepAgrees, on every step of every generated history outside the guards) and by "
+                  "the Python reference overlay")
     technique = "Lean 4 model + invariants + refinement to a layered-store specification; differential testing against /repo"
     trusted_base = [
         "Python's class machinery (type(), __mro__, attribute lookup of data descriptors, instance __dict__) is the "
@@ -808,45 +890,7 @@ class C17(Property):
         return check_case(case)
 
     def classify(self, case, failure):
-        if failure.get("clause") not in ("read-is-overlay", "no-upward-leak"):
-            return None
-        view = failure.get("view")
-        keys = failure.get("keys") or []
-        # KF-C17-a: the view is an instance whose clear() forgot exactly the keys now in dispute
-        if view and view[0] == "i" and failure.get("clause") == "read-is-overlay":
-            forgot = set(failure.get("_forgotten", {}).get(str(view[1]), []))
-            if keys and set(keys) <= forgot:
-                return "KF-C17-a"
-        # KF-C17-c: multiple inheritance mixing Properties objects: a class of the view's chain resolves
-        # `properties` to another Properties object than the view does, and holds the disputed keys
-        if view and keys and any(c["t"] == "mi" for c in case["cmds"]):
-            step = failure.get("step", -1)
-            ref = Ref(case)
-            for c in case["cmds"][:step + 1]:
-                ref.do(c)
-            cls = view[1] if view[0] == "c" else ref.insts[view[1]].get("cls")
-            if not (view[0] == "i" and "detached" in ref.insts[view[1]]):
-                mine = ref.chain(cls)[-1]
-                foreign = [x for x in ref.chain(cls) if ref.chain(x)[-1] != mine]
-                if foreign and all(any(k in ref.classes[x]["layer"] for x in foreign) for k in keys):
-                    return "KF-C17-c"
-        # KF-C17-b: the view is a class holding a shared Properties object (or inherits from one / is an
-        # instance of one) and the step's operation went through another member of the same group
-        groups = _shared_groups(case)
-        if groups and view:
-            step = failure.get("step", -1)
-            if 0 <= step < len(case["cmds"]):
-                cmd = case["cmds"][step]
-                if cmd["t"] == "op":
-                    ref = Ref(case)
-                    for c in case["cmds"][:step]:
-                        ref.do(c)
-                    src = _owner_class(ref, cmd["view"])
-                    dst = _owner_class(ref, view)
-                    for g in groups.values():
-                        if src in g and dst in g and src != dst:
-                            return "KF-C17-b"
-        return None
+        return classify_failure(case, failure)
 
     def nontrivial(self, case, obs):
         ops = [c for c in case["cmds"] if c["t"] == "op" and c["op"] in WRITE_OPS]
